@@ -180,6 +180,11 @@ def Op.inert : Op → Bool
 /-- the program without its markers: what must not depend on logging settings nor on process history -/
 def strip (p : Prog) : Prog := p.filter (fun e => !e.op.inert)
 
+/-- operations of the plain fragment: seedings, draws and markers only (what every recorded run of the unchanged code is made of) -/
+def Op.plain : Op → Bool
+  | .seed .. | .draw .. | .note .. => true
+  | _ => false
+
 /-- generators drawn from, in order of first use -/
 def gensUsed (p : Prog) : List Nat :=
   p.foldl (fun acc e => match e.op with
